@@ -56,7 +56,11 @@ def main():
                 res = list(ex.map(run_check, ids))
         finally:
             sh("git -C /repo checkout -- .")
-        caught = {cid: lines for cid, rc, lines, _ in res if rc != 0}
+        # a check that exits non-zero without a VIOLATION line died (killed, out of memory): that is not a catch
+        caught = {cid: lines for cid, rc, lines, _ in res if rc != 0 and any(l.startswith("VIOLATION") for l in lines)}
+        died = [cid for cid, rc, lines, _ in res if rc != 0 and not any(l.startswith("VIOLATION") for l in lines)]
+        if died:
+            print("%s: CHECK DIED (non-zero exit without a VIOLATION line): %s - re-run it" % (d, died))
         out = {"seeded": os.path.relpath(d, VERIF), "property": own, "checks_run": ids,
                "caught_by": sorted(caught), "own_check_catches": own in caught,
                "lines": {cid: [l[:400] for l in lines] for cid, lines in caught.items()},
